@@ -635,7 +635,7 @@ impl Monitor for Ser {
     }
     fn streams(&self, tier: Tier, budget: f64) -> Vec<Stream> {
         let n = match tier {
-            Tier::Quick => 60_000,
+            Tier::Quick => 500_000,
             Tier::Thorough => 3_000_000,
         };
         match self.0 {
